@@ -1884,6 +1884,7 @@ func (l *lexer) lexRawString() error {
 STRING:
 	for {
 		if p == len(l.src) {
+			l.line, l.column = lin, col
 			return l.errorf("string not terminated")
 		}
 		switch l.src[p] {
